@@ -170,6 +170,31 @@ pub fn run(ctx: &Ctx) -> Report {
         }
         Ok(())
     }));
+    // thorough tier: boards whose hash is a SPECIAL value (0, 1, all ones), constructed with a
+    // 4-list birthday search over the extracted keys: no sentinel may leak into hash()
+    if ctx.tier == Tier::Thorough {
+        let mut part = PartResult::empty();
+        if let Ok(m) = model() {
+            for target in [0u64, 1, !0u64] {
+                for st in crate::collide::boards_with_hash(m, target, 3) {
+                    let Some(b) = build(&st) else { continue };
+                    let p = pos_of_board(&b);
+                    part.stats.eval(1);
+                    part.stats.class_if(m.predict(&p) == Some(target), "constructed-special-hash-board");
+                    part.stats.nontrivial(fnv(st.text().as_bytes()));
+                    if part.stats.samples.len() < 2 {
+                        part.stats.samples.push(format!("'{:#}' constructed to hash to {:#018x}", b, target));
+                    }
+                    let origin = format!("bstate:{}", st.text());
+                    if let Err(f) = check_board(&Visit { board: &b, pos: &p, step: &Step::Start, hist: &[], origin: &origin }) {
+                        part.failures.push(f);
+                        break;
+                    }
+                }
+            }
+        }
+        rep.add(part);
+    }
     rep
 }
 
